@@ -64,6 +64,14 @@ async fn dns_refresh_loop(
 }
 
 async fn resolve_seed_host(seed_host: &str, seed_addrs: &mut HashSet<SocketAddr>) {
+    #[cfg(feature = "verif")]
+    if let Some(lookup_result) = crate::verif::resolve_host(seed_host) {
+        match lookup_result {
+            Ok(resolved_seed_addrs) => seed_addrs.extend(resolved_seed_addrs),
+            Err(error) => warn!(seed_host=%seed_host, error=?error, "failed to lookup host"),
+        }
+        return;
+    }
     match lookup_host(seed_host).await {
         Ok(resolved_seed_addrs) => {
             for seed_addr in resolved_seed_addrs {
